@@ -251,12 +251,128 @@ def elementPre (c : BCfg) (start : Elem) : BM (List ((Str × Str) × Tok) × Lis
     liftCB (validateAttributes ns start.nsNames I18N i18nWhitelist)
     pure (ns, attrs)
 
-/-- the rest of `visit_element`.  The statement attributes are read only through the lookup `get`
-(`ns_attrs.get((ns, name))`), the other attributes only through `prep` (`prepare_attributes`), and the children
-through the action `kids` (the recursive visit), which runs exactly once. -/
-def elementBodyPre (c : BCfg) (start : Head) (end0 : Option Elem)
+/-- the "inside" of an element that is not a macro use: what `tal:content`, a static `i18n:translate`, `tal:omit-tag`
+and `tal:replace` make of the start tag, the body and the end tag -/
+structure InnerSpec where
+  /-- `tal:content`: cache id, expression, `structure`, translate -/
+  content : Option (Nat × Tok × Bool × Bool)
+  /-- a static `i18n:translate` (no `tal:content` / `tal:replace`): translation id, explicit message id -/
+  translate : Option (Nat × Option Str)
+  startTag : Node
+  endTag : Option Node
+  /-- `tal:omit-tag=""`, or an element of a template-language namespace -/
+  omitAlways : Bool
+  /-- `tal:omit-tag="expr"`: cache id, expression -/
+  omitExpr : Option (Nat × Tok)
+  /-- `tal:replace`: cache id, expression, `structure`, translate -/
+  replace : Option (Nat × Tok × Bool × Bool)
+  deriving Inhabited
+
+/-- the body with `tal:content` (and a static `i18n:translate`) applied -/
+def InnerSpec.contentNode (p : InnerSpec) (b : Node) : Node :=
+  let c1 := match p.content with
+    | none => b
+    | some (id, expr, st, tr) => makeContentNode id expr (some b) st tr
+  match p.translate with
+  | none => c1
+  | some (tid, msgid) => .translate tid msgid c1
+
+/-- … inside its tags, unless they are omitted -/
+def InnerSpec.tagged (p : InnerSpec) (b : Node) : Node :=
+  if p.omitAlways then p.contentNode b
+  else match p.omitExpr with
+    | some (oid, cl) =>
+      .cache [(oid, .negate (.value cl))]
+        (.element (.condition (.e (.ref oid)) p.startTag none)
+          (p.endTag.map (fun e => Node.condition (.e (.ref oid)) e none)) (p.contentNode b))
+    | none => .element p.startTag p.endTag (p.contentNode b)
+
+/-- … unless `tal:replace` puts a value in its place -/
+def InnerSpec.node (p : InnerSpec) (b : Node) : Node :=
+  match p.replace with
+  | none => p.tagged b
+  | some (id, expr, st, tr) => makeContentNode id expr (some (p.tagged b)) st tr
+
+inductive InnerKind
+  | macroUse (macroTok : Tok) (ext : Bool)
+  | tal (p : InnerSpec)
+  deriving Inhabited
+
+/-- everything `visit_element` has parsed of an element's statements before it visits the children -/
+structure ElemStmts where
+  ns : Str
+  kind : InnerKind
+  useMacroNonEmpty : Bool
+  omitTag : Bool
+  startTag : Option Node
+  endTag : Option Node
+  staticAttrNodes : List Node
+  staticDict : List (Str × Str)
+  defines : List DefineSpec
+  /-- `tal:case`: the cache id of the enclosing switch value, the clause -/
+  case_ : Option (Nat × Tok)
+  /-- `tal:repeat`: node id, clause, separator -/
+  repeat_ : Option (Nat × DefineSpec × Str)
+  condition : Option Tok
+  switch : Option (Nat × Tok)
+  domain : Option Tok
+  context : Option Tok
+  target : Option Tok
+  name : Option Tok
+  defineSlot : Option Tok
+  fillSlot : Option Tok
+  fillIndex : Nat
+  defineMacro : Option Tok
+  onError : Option (Bool × Tok)
+  translateEmpty : Bool
+  deriving Inhabited
+
+def caseNode (swId : Nat) (cl : Tok) (node : Node) : Node :=
+  Node.define [.alias (lit "default") .marker]
+    (.condition (.and_ [.e (.binop (.ref swId) .isNot .cancelMarker),
+                        .or_ [.e (.binop (.value cl) .equals (.ref swId)), .e (.binop (.value cl) .equals .marker)]])
+      (.cancel [swId] node) none)
+
+def ElemStmts.assigns (p : ElemStmts) : List Assign :=
+  Assign.alias (lit "attrs") (.staticDict p.staticDict) ::
+    p.defines.map (fun d => Assign.assign d.names (.value d.expr) (d.ctx == .local_))
+
+/-- the statement wrappers of the element, by kind (`applyWrappers` nests them in `wrapOrder`) -/
+def ElemStmts.wrappers (p : ElemStmts) : List (Wrapper × (Node → Node)) :=
+  [(Wrapper.define, fun node => Node.define p.assigns node)] ++
+  (match p.defineSlot with | some cl => [(Wrapper.defineSlot, fun node => Node.defineSlot cl node)] | none => []) ++
+  (match p.case_ with | some (swId, cl) => [(Wrapper.case_, caseNode swId cl)] | none => []) ++
+  (match p.condition with | some cl => [(Wrapper.condition, fun node => Node.condition (.e (.value cl)) node none)] | none => []) ++
+  (match p.repeat_ with
+    | some (rid, d, ws) => [(Wrapper.repeat_, fun node => Node.repeat_ rid d.names (.value d.expr) (d.ctx == .local_) ws node)]
+    | none => []) ++
+  (match p.switch with | some (sid, cl) => [(Wrapper.switch, fun node => Node.cache [(sid, .value cl)] node)] | none => []) ++
+  (match p.domain with | some cl => [(Wrapper.domain, fun node => Node.domain cl.str node)] | none => []) ++
+  (match p.context with | some cl => [(Wrapper.context, fun node => Node.txContext cl.str node)] | none => []) ++
+  (match p.target with
+    | some cl => [(Wrapper.target, fun node =>
+        Node.define [.alias (lit "default") (.pyName (lit "target_language"))] (.target (.value cl) node))]
+    | none => [])
+
+/-- the fallback of `tal:on-error`: the start tag with the static attributes, the fallback content, the end tag -/
+def ElemStmts.fallback (p : ElemStmts) (st : Bool) (expr : Tok) : Node :=
+  let fbContent := makeContentNode 0 expr none st p.translateEmpty
+  if !p.omitTag && !dropNs.contains p.ns then
+    match p.startTag with
+    | some (.start nm pfx sfx _) =>
+      let (sfx', endTag') := match p.endTag with
+        | some e => (sfx, e)
+        | none => (some (lit ">"), Node.end_ nm (some []) (lit "</") (some (lit ">")))
+      .element (.start nm pfx sfx' (.seq p.staticAttrNodes)) (some endTag') fbContent
+    | _ => fbContent
+  else fbContent
+
+/-- the first part of the rest of `visit_element`: every statement of the element is parsed (and every error the
+statements can raise is raised) before the children are visited.  The statement attributes are read only through the
+lookup `get` (`ns_attrs.get((ns, name))`), the other attributes only through `prep` (`prepare_attributes`). -/
+def elementStmts (c : BCfg) (start : Head) (end0 : Option Elem)
     (get : Str × Str → Option Tok)
-    (prep : List (Option Tok × Tok) → List (Str × Option Str) → Option (List PAttr)) : BM (List Node → BM Node) := do
+    (prep : List (Option Tok × Tok) → List (Str × Option Str) → Option (List PAttr)) : BM ElemStmts := do
     let nonEmpty (o : Option Tok) : Bool := match o with | some t => !t.str.isEmpty | none => false
     -- _check_attributes
     if dropNs.contains start.ns && nonEmpty (get (TAL, lit "attributes")) then
@@ -306,36 +422,32 @@ def elementBodyPre (c : BCfg) (start : Head) (end0 : Option Elem)
     let contentId ← freshId
     let replaceId ← freshId
     let omitId ← freshId
+    let translateEmpty := match get (I18N, lit "translate") with | some t => t.str.isEmpty | none => false
     -- ---- the element's own statements, in source order of visit_element
-    let mkInner : BM ((List Node → Node) × Bool × Option Node × Option Node × List Node) := do
+    let mkInner : BM (InnerKind × Bool × Option Node × Option Node × List Node) := do
       if isMacroUse then
         let (macroTok, ext) := if nonEmpty useMacro then (useMacro.getD default, false) else (extendMacro.getD default, true)
-        let s ← bGet
-        let slots := s.useMacro.headD []
-        let _ := slots
-        pure ((fun _ => Node.define [.assign [{ str := lit "macroname", pos := 0 }] (.const (rsplitSlash macroTok.str)) true]
-          (.useExternal (.value macroTok) [] ext)), true, none, none, [])
+        pure (.macroUse macroTok ext, true, none, none, [])
       else
         -- tal:content
-        let (content1, end1, forceSuffix) : (Node → Node) × Option Tag × Bool ← match talContent with
-          | none => pure (id, end0.map (fun e => e.tag), false)
+        let (content1, end1, forceSuffix) : Option (Nat × Tok × Bool × Bool) × Option Tag × Bool ← match talContent with
+          | none => pure (none, end0.map (fun e => e.tag), false)
           | some cl => do
             let (st, expr) ← liftCB (parseSubstitution c.rx cl)
-            let translate := match get (I18N, lit "translate") with | some t => t.str.isEmpty | none => false
-            let n : Node → Node := fun content0 => makeContentNode contentId expr (some content0) st translate
+            let n : Option (Nat × Tok × Bool × Bool) := some (contentId, expr, st, translateEmpty)
             match end0 with
             | some e => pure (n, some e.tag, false)
             | none => pure (n, some { pfx := { str := lit "</", pos := 0 }, name := start.name,
                                        suffix := some { str := lit ">", pos := 0 },
                                        space := some { str := [], pos := 0 }, attrs := [], spans := [], restLen := 0 }, true)
         -- i18n:translate
-        let content2 : Node → Node ← match get (I18N, lit "translate") with
-          | none => pure content1
+        let translate2 : Option (Nat × Option Str) ← match get (I18N, lit "translate") with
+          | none => pure none
           | some cl =>
             let dynamic := nonEmpty talContent || nonEmpty (get (TAL, lit "replace"))
-            if dynamic then pure content1 else do
+            if dynamic then pure none else do
               let tid ← freshId
-              pure (fun b => Node.translate tid (if cl.str.isEmpty then none else some cl.str) (content1 b))
+              pure (some (tid, if cl.str.isEmpty then none else some cl.str))
         -- tal:attributes / i18n:attributes
         let talAttrs ← match get (TAL, lit "attributes") with
           | none => pure []
@@ -356,29 +468,21 @@ def elementBodyPre (c : BCfg) (start : Head) (end0 : Option Elem)
         let (omitAlways, omitExpr) : Bool × Option Tok := match get (TAL, lit "omit-tag") with
           | none => (false, none)
           | some cl => let cl' := Tok.strip cl; if cl'.str.isEmpty then (true, none) else (false, some cl')
-        let (startTag', endTag') := match omitExpr with
-          | some _ => (Node.condition (.e (.ref omitId)) startTag none, endTag.map (fun e => Node.condition (.e (.ref omitId)) e none))
-          | none => (startTag, endTag)
-        let inner0 : Node → Node := fun b =>
-          if omitAlways || dropNs.contains start.ns then content2 b
-          else
-            let el := Node.element startTag' endTag' (content2 b)
-            match omitExpr with
-            | some cl => .cache [(omitId, .negate (.value cl))] el
-            | none => el
         -- tal:replace
-        let inner1 : Node → Node ← match get (TAL, lit "replace") with
-          | none => pure inner0
+        let replace1 : Option (Nat × Tok × Bool × Bool) ← match get (TAL, lit "replace") with
+          | none => pure none
           | some cl => do
             let (st, expr) ← liftCB (parseSubstitution c.rx cl)
-            let translate := match get (I18N, lit "translate") with | some t => t.str.isEmpty | none => false
-            pure (fun b => makeContentNode replaceId expr (some (inner0 b)) st translate)
+            pure (some (replaceId, expr, st, translateEmpty))
         -- the on-error fallback shows the static attributes, with an empty filter list
         let staticAttrs : List Node := attrNodes.filterMap (fun n => match n with
           | .attribute nm (.const v) qt eq sp df _ => some (.attribute nm (.const v) qt eq sp df []) | _ => none)
         let omitTag := omitAlways || dropNs.contains start.ns || omitExpr.isSome
-        pure ((fun body => inner1 (.seq body)), omitTag, some startTag, endTag, staticAttrs)
-    let (innerF, omitTag, startTag, endTag, staticAttrNodes) ← mkInner
+        let inner : InnerSpec := { content := content1, translate := translate2, startTag := startTag, endTag := endTag,
+                                   omitAlways := omitAlways || dropNs.contains start.ns,
+                                   omitExpr := omitExpr.map (fun cl => (omitId, cl)), replace := replace1 }
+        pure (.tal inner, omitTag, some startTag, endTag, staticAttrs)
+    let (kind, omitTag, startTag, endTag, staticAttrNodes) ← mkInner
     -- static attribute dictionary for `attrs`
     let staticDict : List (Str × Str) ← (if isMacroUse then pure [] else do
       let talAttrs ← match get (TAL, lit "attributes") with
@@ -398,7 +502,7 @@ def elementBodyPre (c : BCfg) (start : Head) (end0 : Option Elem)
     let defines ← match get (TAL, lit "define") with
       | none => pure []
       | some cl => liftCB (parseDefines c.rx c.q cl)
-    let caseW : Option (Node → Node) ← match get (TAL, lit "case") with
+    let caseW : Option (Nat × Tok) ← match get (TAL, lit "case") with
       | none => pure none
       | some cl => do
         let s ← bGet
@@ -408,11 +512,8 @@ def elementBodyPre (c : BCfg) (start : Head) (end0 : Option Elem)
           let swId := sid.getD 0
           let caseId ← freshId
           let _ := caseId
-          pure (some (fun node => Node.define [.alias (lit "default") .marker]
-            (.condition (.and_ [.e (.binop (.ref swId) .isNot .cancelMarker),
-                                .or_ [.e (.binop (.value cl) .equals (.ref swId)), .e (.binop (.value cl) .equals .marker)]])
-              (.cancel [swId] node) none)))
-    let repeatW : Option (Node → Node) ← match get (TAL, lit "repeat") with
+          pure (some (swId, cl))
+    let repeatW : Option (Nat × DefineSpec × Str) ← match get (TAL, lit "repeat") with
       | none => pure none
       | some cl => do
         let defs ← liftCB (parseDefines c.rx c.q cl)
@@ -423,20 +524,14 @@ def elementBodyPre (c : BCfg) (start : Head) (end0 : Option Elem)
               pure []
             else pure whitespace0)
           let rid ← freshId
-          pure (some (fun node => Node.repeat_ rid d.names (.value d.expr) (d.ctx == .local_) ws node))
+          pure (some (rid, d, ws))
         | _ => bCrash "AssertionError"
-    let conditionW : Option (Node → Node) := (get (TAL, lit "condition")).map (fun cl node => Node.condition (.e (.value cl)) node none)
-    let switchW : Option (Node → Node) := match switchId, switchTok with
-      | some sid, some cl => some (fun node => Node.cache [(sid, .value cl)] node)
+    let switchW : Option (Nat × Tok) := match switchId, switchTok with
+      | some sid, some cl => some (sid, cl)
       | _, _ => none
-    let domainW : Option (Node → Node) := (get (I18N, lit "domain")).map (fun cl node => Node.domain cl.str node)
-    let contextW : Option (Node → Node) := (get (I18N, lit "context")).map (fun cl node => Node.txContext cl.str node)
-    let targetW : Option (Node → Node) := (get (I18N, lit "target")).map (fun cl node =>
-      Node.define [.alias (lit "default") (.pyName (lit "target_language"))] (.target (.value cl) node))
-    let nameW : Option (Node → Node) := match get (I18N, lit "name") with
-      | some cl => if (Tok.strip cl).str.isEmpty then none else some (fun node => Node.name cl node)
+    let nameW : Option Tok := match get (I18N, lit "name") with
+      | some cl => if (Tok.strip cl).str.isEmpty then none else some cl
       | none => none
-    let defineSlotW : Option (Node → Node) := (get (METAL, lit "define-slot")).map (fun cl node => Node.defineSlot cl node)
     -- fill-slot / define-macro / on-error checks that need no children
     match get (METAL, lit "fill-slot") with
     | some cl =>
@@ -453,39 +548,36 @@ def elementBodyPre (c : BCfg) (start : Head) (end0 : Option Elem)
     let onErrorParsed ← match get (TAL, lit "on-error") with
       | none => pure none
       | some cl => do let r ← liftCB (parseSubstitution c.rx cl); pure (some r)
-    -- ---- what happens once the children are visited
-    pure (fun body => do
+    pure { ns := start.ns, kind := kind, useMacroNonEmpty := nonEmpty useMacro, omitTag := omitTag, startTag := startTag,
+           endTag := endTag, staticAttrNodes := staticAttrNodes, staticDict := staticDict, defines := defines,
+           case_ := caseW, repeat_ := repeatW, condition := get (TAL, lit "condition"), switch := switchW,
+           domain := get (I18N, lit "domain"), context := get (I18N, lit "context"), target := get (I18N, lit "target"),
+           name := nameW, defineSlot := get (METAL, lit "define-slot"), fillSlot := get (METAL, lit "fill-slot"),
+           fillIndex := if isMacroUse then 1 else 0, defineMacro := get (METAL, lit "define-macro"),
+           onError := onErrorParsed, translateEmpty := translateEmpty }
+
+/-- what happens once the children are visited: the node of the element is assembled from its parsed statements `p`
+and the nodes of its children -/
+def elementPost (p : ElemStmts) (body : List Node) : BM Node := do
       bModify (fun s => { s with switches := s.switches.drop 1, interpolation := s.interpolation.drop 1 })
       let sU ← bGet
-      let inner : Node := if isMacroUse then
-          (match innerF [] with
-           | .define as (.useExternal e _ ext) => .define as (.useExternal e (sU.useMacro.headD []) ext)
-           | n => n)
-        else innerF body
-      if nonEmpty useMacro then bModify (fun s => { s with useMacro := s.useMacro.drop 1 }) else pure ()
-      let assigns : List Assign := Assign.alias (lit "attrs") (.staticDict staticDict) ::
-        defines.map (fun d => Assign.assign d.names (.value d.expr) (d.ctx == .local_))
-      let ws : List (Wrapper × (Node → Node)) :=
-        [(Wrapper.define, fun node => Node.define assigns node)] ++
-        (match defineSlotW with | some w => [(Wrapper.defineSlot, w)] | none => []) ++
-        (match caseW with | some w => [(Wrapper.case_, w)] | none => []) ++
-        (match conditionW with | some w => [(Wrapper.condition, w)] | none => []) ++
-        (match repeatW with | some w => [(Wrapper.repeat_, w)] | none => []) ++
-        (match switchW with | some w => [(Wrapper.switch, w)] | none => []) ++
-        (match domainW with | some w => [(Wrapper.domain, w)] | none => []) ++
-        (match contextW with | some w => [(Wrapper.context, w)] | none => []) ++
-        (match targetW with | some w => [(Wrapper.target, w)] | none => [])
-      let slot0 := applyWrappers ws wrapOrder inner
+      let inner : Node := match p.kind with
+        | .macroUse macroTok ext =>
+          Node.define [.assign [{ str := lit "macroname", pos := 0 }] (.const (rsplitSlash macroTok.str)) true]
+            (.useExternal (.value macroTok) (sU.useMacro.headD []) ext)
+        | .tal ip => ip.node (.seq body)
+      if p.useMacroNonEmpty then bModify (fun s => { s with useMacro := s.useMacro.drop 1 }) else pure ()
+      let slot0 := applyWrappers p.wrappers wrapOrder inner
       -- metal:fill-slot: the node goes to the slot list of the enclosing use-macro
-      let slot1 ← match get (METAL, lit "fill-slot") with
+      let slot1 ← match p.fillSlot with
         | some cl => do
-          let index := if isMacroUse then 1 else 0
+          let index := p.fillIndex
           bModify (fun s => { s with useMacro := (s.useMacro.take index) ++
             [ (s.useMacro.getD index []) ++ [(cl, slot0)] ] ++ s.useMacro.drop (index + 1) })
           pure slot0
         | none => pure slot0
       -- metal:define-macro
-      let slot2 ← match get (METAL, lit "define-macro") with
+      let slot2 ← match p.defineMacro with
         | some cl => do
           -- `self._macros[clause] = slot`: a dict keeps the position of a key that is assigned again
           bModify (fun s =>
@@ -495,25 +587,20 @@ def elementBodyPre (c : BCfg) (start : Head) (end0 : Option Elem)
             { s with macros := ms })
           pure (Node.useInternal (some cl.str))
         | none => pure slot1
-      let slot3 := match nameW with | some w => w slot2 | none => slot2
+      let slot3 := match p.name with | some cl => Node.name cl slot2 | none => slot2
       -- tal:on-error
-      match onErrorParsed with
+      match p.onError with
       | none => pure slot3
       | some (st, expr) => do
-        let translate := match get (I18N, lit "translate") with | some t => t.str.isEmpty | none => false
-        let fbContent := makeContentNode 0 expr none st translate
-        let fallback : Node :=
-          if !omitTag && !dropNs.contains start.ns then
-            match startTag with
-            | some (.start nm pfx sfx _) =>
-              let (sfx', endTag') := match endTag with
-                | some e => (sfx, e)
-                | none => (some (lit ">"), Node.end_ nm (some []) (lit "</") (some (lit ">")))
-              .element (.start nm pfx sfx' (.seq staticAttrNodes)) (some endTag') fbContent
-            | _ => fbContent
-          else fbContent
         let oid ← freshId
-        pure (.onError oid fallback slot3))
+        pure (.onError oid (p.fallback st expr) slot3)
+
+/-- the rest of `visit_element` up to the visit of the children; the result is the continuation that runs after it -/
+def elementBodyPre (c : BCfg) (start : Head) (end0 : Option Elem)
+    (get : Str × Str → Option Tok)
+    (prep : List (Option Tok × Tok) → List (Str × Option Str) → Option (List PAttr)) : BM (List Node → BM Node) := do
+  let p ← elementStmts c start end0 get prep
+  pure (elementPost p)
 
 /-- the rest of `visit_element`: the statements of the element itself, then the children (`kids`, the recursive
 visit, runs exactly once), then the assembly of the node -/
